@@ -368,6 +368,23 @@ DecideSet(g, id, u, agent, ts) ==
 
 \* AttachResult: storage.go:504-555.  pathOK abstracts validateResultPath +
 \* captureResultEvidence (refined by ErgoText / the C20 path classes)
+\* Result paths (C20): a finite table of path spellings shared with the driver,
+\* which creates exactly these files: [ok |-> acceptable, clean |-> cleaned path].
+\* Acceptable = relative, cleaned path inside the project root and outside
+\* .ergo, naming an existing REGULAR file.
+ResultPaths ==
+  [ p \in {"r1.txt", "r2.txt", "sub/r3.txt", "./r1.txt", "sub/../r2.txt", "sub//r3.txt",
+            "missing.txt", "../out.txt", "sub/../../out.txt", "/etc/hostname",
+            ".ergo/lock", "./.ergo/lock", "sub/../.ergo/lock", ".ergo",
+            "sub", "pipe.fifo", "my file.txt"} |->
+      CASE p \in {"r1.txt", "./r1.txt"} -> [ok |-> TRUE, clean |-> "r1.txt"]
+        [] p \in {"r2.txt", "sub/../r2.txt"} -> [ok |-> TRUE, clean |-> "r2.txt"]
+        [] p \in {"sub/r3.txt", "sub//r3.txt"} -> [ok |-> TRUE, clean |-> "sub/r3.txt"]
+        [] p = "my file.txt" -> [ok |-> TRUE, clean |-> p]
+        [] OTHER -> [ok |-> FALSE, clean |-> p] ]
+PathOK(p) == p \in DOMAIN ResultPaths /\ ResultPaths[p].ok
+PathClean(p) == IF p \in DOMAIN ResultPaths THEN ResultPaths[p].clean ELSE p
+
 SummaryOK(s) == ~Blank(s) /\ s \notin {"two\nlines", "way too long"}
 
 DecideResult(g, id, summary, path, pathOK, ts) ==
@@ -377,7 +394,7 @@ DecideResult(g, id, summary, path, pathOK, ts) ==
   ELSE IF g.items[id].kind = "epic" THEN Fail("cannot attach result to epic")
   ELSE IF ~SummaryOK(summary) THEN Fail("bad summary")
   ELSE IF ~pathOK THEN Fail("bad path")
-  ELSE Ok(<<EvResult(id, Trim(summary), path, ts)>>, [id |-> id])
+  ELSE Ok(<<EvResult(id, Trim(summary), PathClean(path), ts)>>, [id |-> id])
 
 \* LinkEdge: storage.go:274-320
 DecideLink(g, op, from, to, ts) ==
